@@ -40,9 +40,22 @@ type StructDataProvider struct {
 	tag   *string
 }
 
+// looks a field up by name. A field promoted from an embedded nil pointer is not there (reflect's FieldByName would panic)
+func (s *StructDataProvider) fieldByName(key string) (reflect.Value, bool) {
+	sf, ok := s.value.Type().FieldByName(key)
+	if !ok {
+		return reflect.Value{}, false
+	}
+	field, err := s.value.FieldByIndexErr(sf.Index)
+	if err != nil || !field.CanInterface() {
+		return reflect.Value{}, false
+	}
+	return field, true
+}
+
 func (s *StructDataProvider) Get(key string) any {
-	field := s.value.FieldByName(key)
-	if !field.IsValid() || !field.CanInterface() {
+	field, ok := s.fieldByName(key)
+	if !ok {
 		return nil
 	}
 	return field.Interface()
@@ -54,8 +67,8 @@ func (s *StructDataProvider) GetByField(field reflect.StructField, fallback stri
 }
 
 func (s *StructDataProvider) GetNestedProvider(key string) DataProvider {
-	field := s.value.FieldByName(key)
-	if !field.IsValid() || !field.CanInterface() {
+	field, ok := s.fieldByName(key)
+	if !ok {
 		return nil
 	}
 	dataProvider, _ := TryNewAnyDataProvider(field.Interface())
